@@ -243,6 +243,28 @@ impl Engine for C17 {
                     }
                 }
             }
+            // ---------------------------------------------------------------- a limit lowered below where we are
+            1 if index % 23 == 5 => {
+                let d = 3 + w.below(6) as usize; // current nesting when the <config> is met
+                let l = 1 + w.below(d as u64 - 1) as u32; // lower than that
+                let extra = 1 + w.usize(4);
+                let doc = format!(
+                    "<svg>{}<config depth-limit=\"{l}\"/>{}<rect class=\"m\" wh=\"1\"/>{}{}</svg>",
+                    "<g>".repeat(d - 1),
+                    "<g>".repeat(extra),
+                    "</g>".repeat(extra),
+                    "</g>".repeat(d - 1)
+                );
+                Scn {
+                    label: "depth:lowered-below-current".into(),
+                    doc,
+                    cfg: Cfg::default(),
+                    expect_ok: false,
+                    expect_marks: None,
+                    expect_text: None,
+                    params: format!("L={l} set at depth {d}, {extra} more levels follow"),
+                }
+            }
             // ---------------------------------------------------------------- flat amplification
             1 | 2 => {
                 let l = if w.chance(1, 4) { 100 } else { 4 + w.below(30) as u32 };
@@ -374,10 +396,15 @@ impl Engine for C17 {
                     "nested",
                     "while-in-group",
                     "count-expr",
+                    "count-comment-body",
+                    "count-blank-body",
                 ]);
                 let item = "<rect class=\"m\" xy=\"{{$i * 2}} 0\" wh=\"1\"/>";
                 let (body, marks) = match kind {
                     "count" => (format!("<loop count=\"{n}\" loop-var=\"i\">{item}</loop>"), n),
+                    // a body without any element still runs its passes
+                    "count-comment-body" => (format!("<loop count=\"{n}\"><!-- {item} --></loop><rect class=\"m\" wh=\"1\"/>"), 1),
+                    "count-blank-body" => (format!("<loop count=\"{n}\">\n   \n</loop><rect class=\"m\" wh=\"1\"/>"), 1),
                     // content of <specs> is evaluated once at definition time: its loops count too
                     "count-in-specs" => (format!("<specs><loop count=\"{n}\" loop-var=\"i\"><rect id=\"s$i\" wh=\"1\"/></loop></specs><rect class=\"m\" wh=\"2\"/>"), 1),
                     "while-in-specs-template" => (
@@ -465,7 +492,15 @@ impl Engine for C17 {
                     let kind = *w.pick(&[
                         "literal", "concat", "copy", "in-group", "fwd", "copy-of-g-attr", "copy-of-reuse-attr", "copy-of-for-var", "braced-copy",
                         "reuse-attr", "reuse-attr-overrides-leaf-attr", "reuse-attr-overrides-group-default", "g-attr-direct", "for-var-direct",
+                        "expr-result", "expr-result",
                     ]);
+                    // (a number an expression computes: 2..7 digits, limits to match)
+                    let (l, n) = if kind == "expr-result" {
+                        let l = 1 + w.below(7) as u32;
+                        (l, ((l as i64 + delta).clamp(2, 7)) as usize)
+                    } else {
+                        (l, n)
+                    };
                     // templates are evaluated once at definition time with their parameters
                     // still unexpanded ("$label"): keep the limit above such placeholders
                     let (l, n) = if kind.contains("reuse") && l < 16 { (l + 16, n + 16) } else { (l, n) };
@@ -486,7 +521,9 @@ impl Engine for C17 {
                     } else {
                         (0..n).map(|i| (b'a' + (i % 26) as u8) as char).collect()
                     };
+                    let val = if kind == "expr-result" { format!("1{}1", "0".repeat(n - 2)) } else { val };
                     let body = match kind {
+                        "expr-result" => format!("<var v=\"{{{{{} + 1}}}}\"/><text xy=\"0 0\" text=\"$v\"/>", format!("{}0", &val[..val.len() - 1])),
                         "literal" => format!("<var v=\"{val}\"/><text xy=\"0 0\" text=\"$v\"/>"),
                         "concat" => {
                             let mut cut = n / 2;
